@@ -20,7 +20,9 @@ RULE = (
     "optionally overridden in a nested .sqlfluff; one file pinned at limit-1 / limit / limit+1; multi-byte content "
     "so bytes != chars; large_file_skip_fail on/off), executed by 3 scenarios: API lint or fix, serial and under "
     "seeded SimPool schedules (in-process and forked workers: the skip crosses the pickle boundary as a "
-    "DelayedException), and CLI lint/fix. Monitors on Lexer.lex / Parser.parse and the disk journal decide "
+    "DelayedException), and CLI lint/fix; in a third of the scenarios the n-th stat() of an oversized file fails once "
+    "(transient ESTALE, n drawn: config discovery stats the path before the size gate does) or every stat() fails (EIO): "
+    "the run may drop or abort on that file, it must not parse or rewrite it. Monitors on Lexer.lex / Parser.parse and the disk journal decide "
     "'never parsed, never written'; files_skipped and the exit code are compared with a model written from the "
     "statement. evaluations = scenario executions. non-trivial iff the model skipped >= 1 file and linted >= 1 "
     "file in that execution; distinct = distinct (world digest, scenario digest, tape digest)."
@@ -79,8 +81,7 @@ def gen_world(rng: Rng) -> dict:
             root_core["large_file_skip_byte_limit"] = lim
     elif which == "char":
         root_core["large_file_skip_char_limit"] = max(1, len(vdata.decode("utf-8")) + delta)
-    sections = {"sqlfluff": root_core}
-    world["files"]["proj/.sqlfluff"]["b64"] = b64(ini(sections))
+    world["files"]["proj/.sqlfluff"]["b64"] = b64(ini(world["cfg"]["sections"]))
     world["pinned"] = {"victim": victim, "which": which, "delta": delta}
     return world
 
@@ -130,7 +131,10 @@ def gen_scenarios(rng: Rng) -> list[dict]:
                 "dequeue": rng.choice(["fifo", "any"]),
                 "backend": "forked" if rng.chance(0.3) else "inproc",
                 "node_seed": rng.randrange(1 << 30),
-                "stat_fault": rng.chance(0.2),
+                "stat_fault": rng.chance(0.35),
+                # which stat() of the victim fails: the n-th one, once (a transient ESTALE/EIO: config
+                # discovery stats the path twice before the size gate does), or every one (None)
+                "stat_nth": rng.choice([0, 1, 2, 2, 2, 3, None]),
             }
         )
     return out
@@ -176,7 +180,11 @@ def run_one(ctx: Any, seed: int, tier: str, replay: Optional[dict] = None) -> di
                 # a transient failure of the size probe itself (EIO/ESTALE on stat) for an
                 # oversized file: the run may abort or skip, it must not parse/rewrite the file
                 victim = byte_skipped[sc["node_seed"] % len(byte_skipped)]
-                plan = [{"cls": "stat", "path": victim, "repeat": True, "kind": "err", "errno": "EIO"}]
+                nth = sc.get("stat_nth")
+                if nth is None:
+                    plan = [{"cls": "stat", "path": victim, "repeat": True, "kind": "err", "errno": "EIO"}]
+                else:
+                    plan = [{"cls": "stat", "path": victim, "nth": nth, "kind": "err", "errno": "ESTALE"}]
             knobs = {"lookahead": sc["lookahead"], "dequeue": sc["dequeue"], "pool_backend": sc["backend"], "journal_reads": bool(plan),
                      "worker_plan": plan}
             n = z.node({"name": "s%d" % si, "root": root, "cwd": cwd, "seed": sc["node_seed"], "knobs": knobs, "tape": sc.get("tape")}, sink=events)
